@@ -546,3 +546,7 @@ def main(argv):
     except subprocess.TimeoutExpired as e:
         print("INFRA-FAILURE %s: timeout %s" % (a.pid, e))
         return 2
+    except Exception:  # a bug in the harness is not a violation of the property
+        traceback.print_exc()
+        print("INFRA-FAILURE %s: the check itself crashed" % a.pid)
+        return 2
